@@ -46,9 +46,10 @@ def alphabet(platform, full):
     return ops
 
 
-def mk(platform, login, ops, blocked=(), dpw=None, sec="", pwl=3):
+def mk(platform, login, ops, blocked=(), dpw=None, sec="", pwl=3, names=None):
+    host, user = names or base.rot_names(platform)
     return dict(platform=platform, login=login, ops=[list(o) for o in ops], blocked=[[list(k), v] for k, v in blocked], dpw=dpw, sec=sec,
-                pwl=pwl, fail=FAIL)
+                pwl=pwl, fail=FAIL, host=host, user=user)
 
 
 # ---------- oracle (independent of the model): every user line in the level its operation named; belief sound after every op
@@ -165,7 +166,7 @@ def gen_cases(ck, tier):
             k = rng.choice([0, 0, 0, 1, 2])
             blocked = [((m, cmd), rng.choice(["refuse", "ignore"])) for m, cmd in rng.sample(tr, min(k, len(tr)))]
             dpw, sec, pwl = rng.choice(base.PW_VARIANTS + [(None, "", 3)] * 4)
-            cases.append(mk(p, rng.choice(logins), h, blocked, dpw, sec, pwl))
+            cases.append(mk(p, rng.choice(logins), h, blocked, dpw, sec, pwl, names=base.rand_names(rng, p)))
     for p, sets in SESSION_NAME_SETS.items():
         for names in sets:
             cases += list(session_histories(rng, p, names, 4 if tier == "quick" else 5))
@@ -190,7 +191,8 @@ def session_histories(rng, platform, names, nmax, budget=None):
         more = alpha + [("A", n) for n in names] + [("I", n, ["int a"]) for n in names] + [("G", True, names[0], ["cfg a", "badline"]),
                                                                                           ("g", True), ("g", False)]
         for _ in range(budget):
-            yield mk(platform, rng.choice(login_levels(platform)), [rng.choice(more) for _ in range(rng.choice([3, 4, 5, 6, 8]))])
+            yield mk(platform, rng.choice(login_levels(platform)), [rng.choice(more) for _ in range(rng.choice([3, 4, 5, 6, 8]))],
+                     names=base.rand_names(rng, platform))
 
 
 def run_sync(case):
@@ -243,7 +245,8 @@ def child_main():
     for p in privgen.PLATFORMS:
         full = alphabet(p, True)
         for _ in range(250):
-            cases.append(mk(p, rng.choice(login_levels(p)), [rng.choice(full) for _ in range(rng.choice([2, 3, 4, 6]))]))
+            cases.append(mk(p, rng.choice(login_levels(p)), [rng.choice(full) for _ in range(rng.choice([2, 3, 4, 6]))],
+                            names=base.rand_names(rng, p)))
     obs_l, reqs, orders = [], [], set()
     for c in cases:
         o = run_sync(c)
@@ -346,8 +349,8 @@ def run(tier, seed):
         sends = sum(1 for k in kinds if k in ("c", "C", "G", "g1", "I"))
         outs = [r["out"] for r in obs_s[i]["recs"]]
         ck.case(json.dumps(c, sort_keys=True), nontrivial=len(kinds) >= 2 and sends >= 1,
-                sample={k: c[k] for k in ("platform", "login", "ops", "blocked", "dpw", "sec")},
-                tags=(c["platform"], f"len={min(len(kinds), 12)}", f"login={c['login']}", "blocked" if c["blocked"] else "coop",
+                sample={k: c.get(k) for k in ("platform", "host", "user", "login", "ops", "blocked", "dpw", "sec")},
+                tags=(c["platform"], f"len={min(len(kinds), 12)}", f"login={c['login']}", "blocked" if c["blocked"] else "coop", "host-has-upper" if any(ch.isupper() for ch in c.get("host", "")) else "host-lower",
                       *{f"op={k}" for k in kinds}, *{f"out={o}" for o in outs}))
         for stack, o in runs:
             v = oracle(c, o)
